@@ -288,6 +288,7 @@ Definition op_clauses (n : nat) (lg : log) (a0 pre post : state) (o : op) : list
       ((if negb isc && negb (state_eqb n pre post) then [cl "only_custodians" kind] else []) ++
        (if isc && dup && vt then [cl "vote_once" kind] else []) ++
        (if paid_without_release pre post t h then [cl "payout_without_release" kind] else []) ++
+       (if negb vt && dec T (getA post t) then [cl "reward_without_vote" kind] else []) ++
        (match released pre post t h with
         | Some tx => release_clauses lg1 pre t h tx (t_votes tx + 1) kind
         | None => []
@@ -303,6 +304,7 @@ Definition op_clauses (n : nat) (lg : log) (a0 pre post : state) (o : op) : list
       ((if negb isc && negb (state_eqb n pre post) then [cl "only_custodians" kind] else []) ++
        (if isc && dup && vt then [cl "vote_once" kind] else []) ++
        (if paid_without_release pre post t h then [cl "payout_without_release" kind] else []) ++
+       (if negb vt && dec T (getA post t) then [cl "reward_without_vote" kind] else []) ++
        (match released pre post t h with Some _ => [cl "release" kind] | None => [] end), lg1)
   | OConfirm f t hraw p ph =>
       let kind := if rotated lg t then "confirm_rotated"%string else "confirm"%string in
